@@ -18,13 +18,14 @@ ENGINES = [
     ("logger", ["C20"], "logging-state and reopen-registry monitors on the logger component"),
 ]
 
+READY = open(os.path.join(ROOT, "tools", "ready.txt")).read().split()
 props = [json.loads(l) for l in open(os.path.join(ROOT, "properties.jsonl"))]
 checks = []
 na = []
 for p in props:
     pid = p["id"]
     path = os.path.join(ROOT, "zcverif", "checks", pid.lower() + ".py")
-    if not os.path.exists(path):
+    if not os.path.exists(path) or pid not in READY:
         na.append({"property_id": pid, "reason": "check not built yet in this session (planned in DESIGN.md section 4; runtime monitoring is applicable)"})
         continue
     src = open(path).read()
